@@ -420,6 +420,26 @@ func (*hadChangedState).Apply
   loop 1 invariant forall(j, $i, len(values), newPrev[j] == nil)
   loop 1 invariant changed <==> exists(j, 0, $i, !hcKeeps(args, j) && (j >= len(old(s.prev)) || !analyticEqual(old(s.prev)[j], args[j + 1])))
 
+// had_changed('*'): columns compared by name; a column that is an ignored NULL on this row keeps its baseline if it has one,
+// a column absent from the row loses it; a change is a taken column that is new or differs, or a vanished column whose
+// baseline is not an ignored NULL
+pred hnChanged(ign, cols, prev, k) := (ccTaken(ign, cols, k) && (!dom(prev, k) || !analyticEqual(prev[k], cols[k]))) || (dom(prev, k) && !dom(cols, k) && !(ign && prev[k] == nil))
+
+func (*hadChangedState).ApplyNamed
+  props C14
+  modifies s.firstNamed, s.prevNamed
+  ensures first-row-is-reported-and-becomes-the-baseline: !old(s.firstNamed) ==> isBool(result) && boolval(result) && s.firstNamed && fresh(s.prevNamed) && forallv(k, "", (dom(s.prevNamed, k) <==> ccTaken(ignoreNull, cols, k)) && (dom(s.prevNamed, k) ==> s.prevNamed[k] == cols[k]))
+  ensures every-column-keeps-or-renews-its-own-baseline: old(s.firstNamed) ==> s.firstNamed && fresh(s.prevNamed) && forallv(k, "", (dom(s.prevNamed, k) <==> dom(cols, k) && (ccTaken(ignoreNull, cols, k) || old(dom(s.prevNamed, k)))) && (dom(s.prevNamed, k) ==> s.prevNamed[k] == ite(ccTaken(ignoreNull, cols, k), cols[k], old(s.prevNamed[k]))))
+  ensures changed-iff-some-column-differs-appears-or-vanishes: old(s.firstNamed) ==> isBool(result) && (boolval(result) <==> existsv(k, "", hnChanged(ignoreNull, cols, old(s.prevNamed), k)))
+  loop 1 invariant s.firstNamed && fresh(s.prevNamed) && forallv(k, "", (dom(s.prevNamed, k) <==> $visited[k] && ccTaken(ignoreNull, cols, k)) && (dom(s.prevNamed, k) ==> s.prevNamed[k] == cols[k]))
+  loop 2 invariant s.firstNamed && s.prevNamed == old(s.prevNamed)
+  loop 2 invariant changed <==> existsv(k, "", $visited[k] && ccTaken(ignoreNull, cols, k) && (!dom(s.prevNamed, k) || !analyticEqual(s.prevNamed[k], cols[k])))
+  loop 3 invariant s.firstNamed && s.prevNamed == old(s.prevNamed)
+  loop 3 invariant changed <==> existsv(k, "", ccTaken(ignoreNull, cols, k) && (!dom(s.prevNamed, k) || !analyticEqual(s.prevNamed[k], cols[k]))) || existsv(k, "", $visited[k] && dom(s.prevNamed, k) && !dom(cols, k) && !(ignoreNull && s.prevNamed[k] == nil))
+  loop 4 invariant s.firstNamed && s.prevNamed == old(s.prevNamed) && fresh(next)
+  loop 4 invariant changed <==> existsv(k, "", hnChanged(ignoreNull, cols, s.prevNamed, k))
+  loop 4 invariant forallv(k, "", (dom(next, k) <==> $visited[k] && dom(cols, k) && (ccTaken(ignoreNull, cols, k) || dom(s.prevNamed, k))) && (dom(next, k) ==> next[k] == ite(ccTaken(ignoreNull, cols, k), cols[k], s.prevNamed[k])))
+
 func (*changedColState).Apply
   props C14
   modifies s.prev, s.hasPrev
